@@ -254,16 +254,23 @@ def rule_run_cleanup(ctx: Ctx, out: Collector) -> None:
 
 
 def _implies_done(ctx: Ctx, test: ast.AST, pol: bool, inst, key) -> bool:
-    """The outcome `pol` of `test` holds only if the task `key` is done or cancelled."""
-    if isinstance(test, ast.UnaryOp) and isinstance(test.op, ast.Not):
-        return _implies_done(ctx, test.operand, not pol, inst, key)
-    if isinstance(test, ast.BoolOp):
-        every = isinstance(test.op, ast.Or) == pol          # or-true / and-false: every operand must imply it
-        vals = [_implies_done(ctx, v, pol, inst, key) for v in test.values]
+    """The outcome `pol` of `test` holds only if the task `key` is done or cancelled (helpers are seen through)."""
+    return _implies_done_term(sym.term(ctx.p, test, inst), pol, key)
+
+
+def _implies_done_term(t, pol: bool, key) -> bool:
+    if not isinstance(t, tuple) or not t:
+        return False
+    if t[0] == 'not':
+        return _implies_done_term(t[1], not pol, key)
+    if t[0] in ('and', 'or'):
+        every = (t[0] == 'or') == pol          # or-true / and-false: every operand must imply it
+        vals = [_implies_done_term(x, pol, key) for x in t[1]]
         return all(vals) if every else any(vals)
-    if pol and isinstance(test, ast.Call) and isinstance(test.func, ast.Attribute) and test.func.attr in ('done', 'cancelled') \
-            and not test.args:
-        return sym.term(ctx.p, test.func.value, inst) == key
+    if t[0] == 'call' and isinstance(t[1], str) and t[1] == 'ext:builtins.bool' and t[2]:
+        return _implies_done_term(t[2][0], pol, key)
+    if pol and t[0] == 'call' and isinstance(t[1], str) and t[1].split('.')[-1] in ('done', 'cancelled') and t[2] and t[2][0] == key:
+        return True
     return False
 
 
